@@ -32,7 +32,7 @@ Value model
 
 Public API
 ----------
-    run_function(module, name, args, index_bits=64, fuel=100000, trace=None) -> Result
+    run_function(module, name, args, index_bits=64, fuel=100000, trace=None, envs=None) -> Result
     run_function_any_index(module, name, args, fuel=100000) -> Result     (POISON if 32/64-bit index disagree)
     eval_op(op, args, index_bits=64) -> tuple          one region-free arith op on refsem-form operands
     arith_eval(name, args, in_tys, out_tys, attrs=None, index_bits=64) -> tuple      IR independent core
@@ -716,6 +716,10 @@ def _affine_eval(e, dims, syms, lim=None):
     raise UnsupportedOp(f"affine expression {e}")
 
 
+_SDIV_OPS = frozenset("arith." + n for n in ("divsi", "remsi", "floordivsi", "ceildivsi"))
+_DIV_OPS = _SDIV_OPS | frozenset("arith." + n for n in ("divui", "remui", "ceildivui"))
+
+
 class _Eval:
     MAX_DEPTH = 40
 
@@ -732,6 +736,7 @@ class _Eval:
         self.depth = 0
         self.npoison = 0
         self.syms = [{}]            # symref variables, one dict per call frame
+        self.envs = None            # optional list: the SSA value -> runtime value dict of every call frame
         self.funcs = {}
         for op in _top_ops(module):
             if op.name == "func.func":
@@ -758,8 +763,11 @@ class _Eval:
             raise _OutOfFuel()
         self.depth += 1
         self.syms.append({})
+        env = {}
+        if self.envs is not None:
+            self.envs.append(env)
         try:
-            kind, vals = self.run_region(region, args, {})
+            kind, vals = self.run_region(region, args, env)
         finally:
             self.depth -= 1
             self.syms.pop()
@@ -809,6 +817,12 @@ class _Eval:
         if name.startswith("arith."):
             in_tys = [type_name(o.type) for o in op.operands]
             out_tys = [type_name(r.type) for r in op.results]
+            if name in _DIV_OPS and len(vals) == 2 and POISON in (vals[0], vals[1]):
+                # a POISON divisor may be zero, a POISON dividend of a signed division by -1 may be INT_MIN:
+                # immediate UB (LLVM LangRef: division by poison), not merely a POISON result
+                if vals[1] is POISON or (name in _SDIV_OPS and vals[1] is not POISON
+                                         and to_signed(vals[1], int_width(in_tys[1], self.ib)) == -1):
+                    self.ub.append(f"{name}: POISON operand of a division")
             r = arith_eval(name, vals, in_tys, out_tys, _arith_attrs(op, name), self.ib)
             if r and isinstance(r[0], str):      # "UB"
                 self.ub.append(f"{name}: division by zero or signed division overflow")
@@ -1174,16 +1188,20 @@ def _norm_arg(v, ty: str, ib: int):
     raise UnsupportedOp(f"argument of type {ty}")
 
 
-def run_function(module, name: str, args, index_bits: int = 64, fuel: int = 100000, trace=None) -> Result:
+def run_function(module, name: str, args, index_bits: int = 64, fuel: int = 100000, trace=None,
+                 envs=None) -> Result:
     """Evaluate function `name` of `module` (a builtin.module, or the func.func itself) on `args`.
 
     trace: optional list; (op, operand values) is appended for every operation in execution order.
+    envs: optional list; the {SSA value: runtime value} dict of every call frame is appended (entry call first;
+          a value defined in a loop holds its last value).
 
     args: ints (any representative of the bit pattern; bools allowed), floats, MemRef objects or plain
     lists for memref arguments (MemRef arguments are mutated in place; `Result.args` holds the normalised
     arguments after the run, so the final contents of memref arguments can be compared).
     Raises UnsupportedOp for IR refsem has no semantics for; never raises for UB (-> POISON)."""
     ev = _Eval(module, index_bits, fuel, trace)
+    ev.envs = envs
     fop = ev.funcs.get(name)
     if fop is None:
         raise UnsupportedOp(f"no function {name}")
@@ -1661,6 +1679,9 @@ def selftest(force: bool = False) -> int:
     assert run_function_any_index(m, "sum", (5,)).values == (10,)
     assert run("symsum", 3, 5).values == (40, POISON) and run("symsum", 0, 5).values == (5, POISON)
     assert run("symframes", 4).values == (4,)            # the callee's @a is another variable
+    frames: list = []
+    run("abs", _s(-5, 32), envs=frames)
+    assert len(frames) == 1 and sorted(v for v in frames[0].values() if isinstance(v, int)) == [0, 1, 5, 5, _s(-5, 32)]
     try:
         run("symbad", 1)
         raise AssertionError("refsem selftest: fetch of an undeclared symbol must raise MalformedIR")
